@@ -49,6 +49,10 @@ pub struct AggSpec {
     pub extra_words: u8,
     /// garbage bits set beyond n_bits in the last word
     pub stray_bits: bool,
+    /// the mask is encoded with this many words fewer than n_bits needs (it then announces bits
+    /// its words do not carry and must be rejected)
+    #[serde(default)]
+    pub missing_words: u8,
 }
 
 #[derive(Clone, Debug, Serialize, Deserialize)]
@@ -92,6 +96,10 @@ fn agg_bytes(a: &AggSpec, sig: &[u8]) -> (Vec<u8>, Vec<usize>) {
     }
     if a.stray_bits && !n.is_multiple_of(64) && words > 0 {
         mask[words - 1] |= !0u64 << (n % 64);
+    }
+    if a.missing_words > 0 && a.extra_words == 0 {
+        let keep = words.saturating_sub(a.missing_words as usize);
+        mask.truncate(keep);
     }
     let mut b = Vec::new();
     b.extend_from_slice(sig);
@@ -345,8 +353,9 @@ fn agg_spec() -> impl Strategy<Value = AggSpec> {
         any::<u64>(),
         prop_oneof![8 => Just(0u8), 1 => 1u8..3, 1 => Just(40u8)],
         prop::bool::weighted(0.1),
+        prop_oneof![12 => Just(0u8), 1 => 1u8..=2],
     )
-        .prop_map(|(n_bits, density, seed, extra_words, stray_bits)| AggSpec { n_bits, density, seed, extra_words, stray_bits })
+        .prop_map(|(n_bits, density, seed, extra_words, stray_bits, missing_words)| AggSpec { n_bits, density, seed, extra_words, stray_bits, missing_words })
 }
 
 fn structured() -> BoxedStrategy<Case> {
@@ -525,7 +534,8 @@ fn judge_structured(out: &mut Outcome, case: &Case, dec: Dec, bytes: &[u8], emit
         Case::Cert { kind, primary, fallback, drop_primary, .. } => {
             let bad = |a: &AggSpec| {
                 let words = (a.n_bits as usize).div_ceil(64) + a.extra_words as usize;
-                words > 32
+                let short = a.missing_words > 0 && a.extra_words == 0 && a.n_bits > 0;
+                words > 32 || short
             };
             let mixed = matches!(kind, CKind::NotarFallback | CKind::Skip);
             if mixed {
@@ -571,7 +581,7 @@ fn judge_structured(out: &mut Outcome, case: &Case, dec: Dec, bytes: &[u8], emit
         (Some(e1), false) => {
             out.nontrivial = true;
             let canonical = match case {
-                Case::Cert { primary, fallback, .. } => primary.extra_words == 0 && !primary.stray_bits && fallback.as_ref().is_none_or(|f| f.extra_words == 0 && !f.stray_bits),
+                Case::Cert { primary, fallback, .. } => primary.extra_words == 0 && !primary.stray_bits && primary.missing_words == 0 && fallback.as_ref().is_none_or(|f| f.extra_words == 0 && !f.stray_bits && f.missing_words == 0),
                 _ => true,
             };
             if canonical {
